@@ -109,7 +109,8 @@ Apply(f, a, m) ==
   \* (the similarity-network setters rebuild the graph: link attributes do not survive)
   ELSE IF name = "set_threshold" THEN NoLA([a EXCEPT !.MODE = "threshold", !.P = v])
   ELSE IF name = "set_link_density" THEN NoLA([a EXCEPT !.MODE = "link_density", !.P = v])
-  ELSE IF name = "set_non_local" THEN NoLA([a EXCEPT !.NL = v])
+  \* ("only change the network if there is a real change in non_local")
+  ELSE IF name = "set_non_local" THEN (IF v = a.NL THEN a ELSE NoLA([a EXCEPT !.NL = v]))
   \* data-driven climate networks keep their THRESHOLD when the similarity is recomputed: a network whose density
   \* was prescribed goes to the mode "kept_threshold" (the threshold derived from the OLD similarity stays), in
   \* which the abstract state does not determine the network - nothing is observed there (no fresh twin exists),
